@@ -943,10 +943,16 @@ def case_e2e(ctx, rng):
 
 def _case_e2e(ctx, rng, clock):
     desc = {"kind": "e2e", "ops": []}
-    h = E2E(ctx, rng, desc)
+    template = rng.choice(["incident", "incident", "anergy", "random", "random", "rollover", "recurrence"])
+    desc["template"] = template
+    h = E2E(ctx, rng, desc, lenient=template == "recurrence")
     base = gen_style(rng)
     nonfinite = rng.random() < 0.04
-    n0 = rng.choice([h.mo, h.mo, h.mo + 1, h.ws, h.ws + 7, rng.randint(1, h.ws + 10)])
+    if template == "rollover":
+        # train before the window is full, so that it fills up (and rolls over) while the behaviour is off-baseline
+        n0 = rng.choice([h.mo, h.mo, min(h.mo + 1, h.ws), max(h.mo, h.ws - 1)])
+    else:
+        n0 = rng.choice([h.mo, h.mo, h.mo + 1, h.ws, h.ws + 7, rng.randint(1, h.ws + 10)])
     h.observe(base, n0, "base")
     if nonfinite:
         bad = rng.choice([float("nan"), float("inf"), -float("inf")])
@@ -970,8 +976,8 @@ def _case_e2e(ctx, rng, clock):
     h.inspect(after_training=True)
 
     kinds = ["slow", "fast", "long", "lowconf", "errors", "vocab", "structure", "slight", "normal", "normal"]
-    template = rng.choice(["incident", "incident", "anergy", "random", "random"])
     full = h.ws + rng.choice([0, 1, 5])
+    budget = 16
     if template == "incident":
         k = rng.choice(["slow", "long", "lowconf", "errors", "slow", "vocab"])
         program = [(k, rng.choice([h.ws, h.ws // 2 + 1, 3]), h.thr_repeat + rng.choice([0, 1])), ("normal", full, rng.choice([1, 2])),
@@ -979,6 +985,27 @@ def _case_e2e(ctx, rng, clock):
     elif template == "anergy":
         k = rng.choice(["slow", "long", "lowconf", "vocab"])
         program = [(k, full, 2 * h.thr_anergy), (rng.choice(["normal", k, "vocab"]), full, 2), (rng.choice(kinds), 2, 1)]
+    elif template == "rollover":
+        # off-baseline behaviour until the window is full and past it (inspected on the way), then a whole window (or the same
+        # number of observations after a clear) of the trained behaviour, inspected again; then once more
+        k = rng.choice(["slow", "long", "lowconf", "errors", "vocab", "structure"])
+        fill = max(1, h.ws - len(h.win))
+        program = [(k, fill + rng.choice([0, 0, 1, 3, h.ws]), rng.choice([1, 2, h.thr_repeat + 1])),
+                   ("normal", full, rng.choice([1, 1, 2])),
+                   (rng.choice([k, "slow", "vocab"]), rng.choice([1, 2, h.ws]), rng.choice([1, 2, h.thr_repeat])),
+                   ("normal", full, rng.choice([1, 2]))]
+        budget = 24
+    elif template == "recurrence":
+        # one threat, sighted again and again on the same system while a tolerance rule keeps matching it
+        k = rng.choice(["slow", "slow", "long", "lowconf", "errors"])
+        if rng.random() < 0.6:
+            h.sys.mark_agent_updated("agent")
+            h.log("mark_updated")
+        if rng.random() < 0.6:
+            h.flag()
+        program = [(k, rng.choice([h.ws, h.ws // 2 + 1, 3]), h.thr_repeat + rng.choice([1, 2, 4])),
+                   (k, rng.choice([1, 2]), rng.choice([1, 2])), ("normal", full, 1), (k, full, 2)]
+        budget = 24
     else:
         program = [(rng.choice(kinds), rng.choice([1, 2, h.ws // 2 + 1, h.ws, full]), rng.randint(1, 4)) for _ in range(rng.randint(2, 5))]
     budget = 16
@@ -986,6 +1013,8 @@ def _case_e2e(ctx, rng, clock):
         style = base if kind == "normal" else drift(rng, base, kind)
         chunks = max(1, ninsp)
         per = max(1, nobs // chunks) if template != "anergy" or pi else nobs
+        if template == "rollover" and kind == "normal" and rng.random() < 0.25:
+            h.clear()
         for c in range(chunks):
             if budget <= 0:
                 break
@@ -1026,7 +1055,7 @@ def _case_e2e(ctx, rng, clock):
     for fp in h.reached:
         ctx.nontrivial(fp)
     if h.reached:
-        sample_once(ctx, {"kind": "e2e", "template": template, "config": desc["config"], "ops": desc["ops"][:40]})
+        sample_once(ctx, {"kind": "e2e-" + template, "template": template, "config": desc["config"], "ops": desc["ops"][:40]})
 
 
 CORNER_SWEEP = [(cfg, val, field, nobs)
